@@ -141,6 +141,20 @@ Theorem C19_rrf_over_union : forall k v t j, NoDup (map fst v) -> NoDup (map fst
 Proof. exact fuse_rrf_spec. Qed.
 Print Assumptions C19_rrf_over_union.
 
+(** "ranks taken best-first within each modality": the rank table holds the positions 0..n-1 of a
+    best-first arrangement of the score map -- every position once, a better score never behind a worse
+    one (equal scores stand in some order; they never share a position) *)
+From Coq Require Import Permutation Sorted.
+Theorem C19_ranks_are_best_first_positions : forall (asc : bool) (m : smap),
+  let skey := fun p : Z * Z => if asc then F64.key (snd p) else - F64.key (snd p) in
+  let sorted := Base.Sorting.isort skey m in
+  Permutation m sorted /\
+  StronglySorted (fun a b => skey a <= skey b) sorted /\
+  map fst (ranks asc m) = map fst sorted /\
+  map snd (ranks asc m) = map Z.of_nat (seq 0 (length m)).
+Proof. exact ranks_are_positions. Qed.
+Print Assumptions C19_ranks_are_best_first_positions.
+
 (** whatever the fusion kind, a fused id comes from one of the two inputs *)
 Theorem C19_fused_ids_come_from_inputs : forall kind vw tw k v t j,
   NoDup (map fst v) -> NoDup (map fst t) ->
